@@ -223,6 +223,19 @@ def run_bounded_on_edit(bc, seed, repo, edits):
         shutil.rmtree(tmp, ignore_errors=True)
 
 
+def clause_tags(prop, fn, clause_name):
+    from pyvc.contracts import REGISTRY
+    for cm in prop.CONTRACT_MODULES:
+        importlib.import_module(cm)
+    con = REGISTRY.get(fn)
+    if con is None:
+        return None
+    for c in con.ensures_:
+        if c.name == clause_name:
+            return list(c.props)
+    return None
+
+
 def relevant(ob, tags):
     """Does an obligation record count for a property with these clause tags?"""
     if ob["kind"] != "post":
@@ -248,6 +261,7 @@ def run_property(prop, tier, seed):
     n_ob = n_dis = 0
     undecided = []
     violations = []
+    unsupported_fns = []
     undecided_obs = []
     candidates = []
     known_hit = []
@@ -267,6 +281,7 @@ def run_property(prop, tier, seed):
             continue
         if r["status"] == "unsupported":
             undecided.append("%s: unsupported construct: %s" % (r["function"], r["error"]))
+            unsupported_fns.append(r["function"])
             continue
         assumed.update(r.get("assumed", []))
         used_contracts.update(r.get("used_contracts", []))
@@ -315,6 +330,19 @@ def run_property(prop, tier, seed):
             undecided.append("%s: solver unknown (%s); weakened-query candidate did not reproduce on the real code"
                              % (ob["name"], ob.get("reason")))
             undecided_obs.append((ob, fn))
+    # ---- functions outside the executor's subset on this tree: the contract cannot be discharged (undecided), but its
+    #      natively evaluable post-conditions are still probed on the real code with pseudo-random inputs
+    for fn in unsupported_fns:
+        rnd = random.Random(seed * 104729 + len(fn))
+        for attempt in range(int(os.environ.get("VERIF_PROBES", "12")) * 2):
+            nat = native_replay(fn, fn + "/*", {"model": {"__random__": rnd.randrange(1 << 30)}, "choices": []},
+                                prop.CONTRACT_MODULES, repo)
+            if nat.get("reproduced") is True and nat.get("pre_holds_natively") and nat.get("failed_clause"):
+                cl_tags = clause_tags(prop, fn, nat["failed_clause"])
+                if cl_tags is None or any(t in cl_tags for t in tags) or not cl_tags:
+                    violations.append(({"name": "%s/%s" % (fn, nat["failed_clause"]), "kind": "post", "status": "refuted",
+                                        "backend": "native-probe", "secs": 0, "model": nat.get("inputs"), "native": nat}, fn))
+                    break
     # ---- undecided obligations: probe the real code with pseudo-random inputs (a violation only if it reproduces)
     probed = {}
     still = []
@@ -395,6 +423,9 @@ def run_property(prop, tier, seed):
                                 "candidate model" if t is ob else "pseudo-random probe"))
                             break
         bad = [r for r in rs if r["status"] != "ok"]
+        if not hit and any(r["status"] == "unsupported" and r["function"] in unsupported_fns for r in rs):
+            selfval.append({"breaker": bk["desc"], "skipped": "the function is outside the executor's subset on this tree"})
+            continue
         if bad and "does not apply exactly once" in (bad[0].get("error") or ""):
             selfval.append({"breaker": bk["desc"], "skipped": "source text of the seeded edit is not present in this tree"})
             continue
@@ -403,6 +434,25 @@ def run_property(prop, tier, seed):
         if not hit:
             crashes.append("self-validation: seeded breaker not detected: %s%s" % (
                 bk["desc"], " (%s)" % bad[0].get("error") if bad else ""))
+    # ---- engine self-validation: concrete differential run against CPython (evidence about the executor only)
+    engine_check = None
+    sc_functions = list(getattr(prop, "SELFCHECK", []))
+    if sc_functions:
+        try:
+            from pyvc import selfcheck
+            from pyvc.source import Program
+            from pyvc.contracts import REGISTRY
+            for cm in prop.CONTRACT_MODULES:
+                importlib.import_module(cm)
+            trials = int(os.environ.get("VERIF_SELFCHECK_TRIALS", "4" if tier == "quick" else "40"))
+            if tier == "quick":
+                sc_functions = sc_functions[:3]
+            engine_check = selfcheck.run_selfcheck(Program(), REGISTRY, sc_functions, prop.CONTRACT_MODULES, repo, seed, trials)
+            for d in engine_check["disagreements"][:3]:
+                crashes.append("engine self-check: executor and CPython disagree on %s: %s" % (d["function"], d["difference"]))
+            engine_check["disagreements"] = engine_check["disagreements"][:3]
+        except Exception:
+            crashes.append("engine self-check crashed: " + traceback.format_exc().splitlines()[-1])
     # ---- report
     lines = []
     replay_dir = os.path.join(VERIF, "evidence", "replay")
@@ -473,6 +523,7 @@ def run_property(prop, tier, seed):
         "known_findings_printed": [l for l in lines if l.startswith("KNOWN-FINDING")],
         "bounded": bounded,
         "self_validation": selfval,
+        "engine_selfcheck": engine_check,
         "undecided": undecided,
         "vacuity_guard": vacuity,
         "explanation": getattr(prop, "EXPLANATION", ""),
